@@ -10,7 +10,7 @@
 From Coq Require Import String.
 From Coq Require Import List NArith Lia Bool Arith.
 From Coq Require Import Init.Byte.
-From FFS Require Import Base.Res Base.Bytes Wallet.Model Wallet.Spec Wallet.Proofs Wallet.Proofs2.
+From FFS Require Import Base.Res Base.Bytes Wallet.Model Wallet.Spec Wallet.Proofs Wallet.Proofs2 Wallet.Proofs3.
 Import ListNotations.
 
 Arguments after {key tx stx doc tsig} E c s h.
@@ -42,6 +42,10 @@ Arguments wl_ok {key} s.
 Arguments static {tx doc} h.
 Arguments refreshed {tx doc} h.
 Arguments ORefresh {tx doc}.
+Arguments ext_nopanic {key tx stx doc tsig} E.
+Arguments op_ok {tx doc} o.
+Arguments obs_nopanic {key stx tsig} b.
+Arguments run {key tx stx doc tsig} E c s h.
 
 (* ------------------------------------------------------------------------------------------------
    1. Safety: in every reachable state a request naming A returns Ok only with a key whose address is
@@ -154,6 +158,22 @@ Proof.
 Qed.
 Print Assumptions C08_refresh_exact.
 
+(* ... and so does a listener event for one file (os.Stat result [name], [isdir]) *)
+Theorem C08_listener_event_exact :
+  forall (key tx stx doc tsig : Type) (E : ext key tx stx doc tsig) (c : config)
+         (fs : fsys) (h : list (op tx doc)) (name : bytes) (isdir : bool),
+    let s := after E c (init_state fs) h in
+    regex_law E -> constructed E c -> name <> [] ->
+    let s' := fst (step _ _ _ _ _ E c s (OFsEvent _ _ name isdir)) in
+    GetAccounts s' = add_all (GetAccounts s) (spec_matches (rule_of E c) [(name, isdir)]) /\
+    (forall a, assoc_get a (st_map s') = backing (rule_of E c) [(name, isdir)] a (assoc_get a (st_map s))) /\
+    st_fs s' = st_fs s /\ st_cache s' = st_cache s.
+Proof.
+  intros key tx stx doc tsig E c fs h name isdir s Hl Hc Hn. apply event_exact; auto.
+  apply after_wl_ok, wl_ok_init.
+Qed.
+Print Assumptions C08_listener_event_exact.
+
 (* on a wallet directory that does not change, after any history of requests, GetAccounts calls,
    rescans and cache evictions: the specification's list once a rescan happened, empty before *)
 Theorem C08_accounts_exact_any_history :
@@ -218,6 +238,18 @@ Proof. exact listed_backing. Qed.
 Print Assumptions C08_listed_file.
 
 (* ------------------------------------------------------------------------------------------------
+   4. "Either fails or returns": no operation of the wallet panics, along any history — provided the
+      libraries do not (the keystore reader: property C15; the signers; the OS calls). *)
+Theorem C08_never_panics :
+  forall (key tx stx doc tsig : Type) (E : ext key tx stx doc tsig) (c : config),
+    regex_law E -> constructed E c -> ext_nopanic E ->
+    forall (fs : fsys) (h : list (op tx doc)),
+    fs_nopanic fs -> Forall op_ok h ->
+    Forall obs_nopanic (snd (run E c (init_state fs) h)).
+Proof. exact wallet_never_panics. Qed.
+Print Assumptions C08_never_panics.
+
+(* ------------------------------------------------------------------------------------------------
    Non-vacuity: a concrete wallet.  Keys are identified with their address; a key file's content is
    the address of the key it holds; every password file must read "pw".  The directory k holds
      1111…11.key   the key of A = 0x11…11            (correct)
@@ -267,7 +299,7 @@ Definition xfs : fsys :=
 
 (* the request history Refresh; Sign B; Sign A; Sign A (cached); SignTypedData A; GetAccounts *)
 Example C08_nonvacuous_history :
-  snd (run _ _ _ _ _ xE xc (init_state xfs)
+  snd (run xE xc (init_state xfs)
          [ORefresh; OSign _ _ (s_0x ++ hexB) tt; OSign _ _ hexA tt; OSign _ _ (s_0x ++ hexA) tt;
           OSignTypedData _ _ xA tt; OGetAccounts _ _]) =
   [BRefresh _ _ _ (Ok tt); BSign _ _ _ (Err EMismatch); BSign _ _ _ (Ok xA); BSign _ _ _ (Ok xA);
